@@ -204,7 +204,7 @@ def gen_figure_case(rng):
                 "desc": {"cls": "RTFFigure", "field": "fig_pos"}, "n": 2, "expect": "ValueError"}
     k = rng.randint(1, 3)
     figs = ["@FIG"] * k
-    figs[rng.randrange(k)] = "@MISSING"
+    figs[rng.randrange(k)] = rng.choice(["@MISSING", "@MISSING", "@THROUGH_MISSING_DIR"])
     return {"cls": "RTFFigure", "kw": {"figures": figs if k > 1 or rng.random() < 0.5 else figs[0]},
             "desc": {"cls": "RTFFigure", "field": "figures", "bad": "missing file"}, "n": 2,
             "expect": "FileNotFoundError"}
@@ -279,7 +279,11 @@ def construct(case, figpath):
     kw = dict(case["kw"])
     if cls == "RTFFigure":
         f = kw.get("figures")
-        rep = {"@FIG": figpath, "@MISSING": figpath + ".does-not-exist.png"}
+        rep = {"@FIG": figpath, "@MISSING": figpath + ".does-not-exist.png",
+               # an existing file named through a directory that does not exist ("plots/drafts/../fig.png"): the OS
+               # cannot open that path
+               "@THROUGH_MISSING_DIR": os.path.join(os.path.dirname(figpath), "no-such-dir", "..",
+                                                    os.path.basename(figpath))}
         kw["figures"] = [rep.get(x, x) for x in f] if isinstance(f, list) else rep.get(f, f)
     return getattr(rtf, cls)(**kw)
 
